@@ -39,7 +39,13 @@ class T:
 
     def service(self):
         self.ctx["log"].append(("svc", self.tid))
-        base = self.tid.rstrip("+!")
+        base = self.tid.rstrip("+!?^")
+        if self.tid.endswith("^"):
+            self.ctx["go"] = True
+        if self.tid.endswith("?"):
+            # a task that cannot finish before another queued task has run (e.g. an application waiting
+            # for a second request): the pool must hand that one to an idle worker
+            self.ctx["S"].block_until(lambda: self.ctx.get("go"), "task-wait")
         if self.tid.endswith("+"):
             self.ctx["d"].add_task(T(self.ctx, base + "f"))
             self.ctx["submitted"].append(base + "f")  # add_task has returned
@@ -184,8 +190,13 @@ QUICK = [
     (dict(workers=2, submit=[["a"]], ctl=[["resize", 1], ["resize", 2]]), 2),
     (dict(workers=2, submit=[["a"]], ctl=[["resize", 1], ["resize", 2], ["shutdown", True]]), 1),
     (dict(workers=1, submit=[["a"]], ctl=[["resize", 0], ["resize", 1]]), 2),
+    (dict(workers=2, submit=[["a?", "b^"]]), 1),
+    (dict(workers=2, submit=[["a?"], ["b^"]]), 1),
 ]
 THOROUGH = [
+    (dict(workers=2, submit=[["a?", "b^"]]), 3),
+    (dict(workers=2, submit=[["a?"], ["b^"]]), 2),
+    (dict(workers=3, submit=[["a?", "b?", "c^"]]), 2),
     (dict(workers=2, submit=[["a"]], ctl=[["resize", 1], ["resize", 2], ["shutdown", True]]), 2),
     (dict(workers=1, submit=[["a", "b"]], ctl=[["resize", 0], ["resize", 1]]), 3),
     (dict(workers=3, submit=[["a"]], ctl=[["resize", 1], ["resize", 3]]), 2),
